@@ -10,6 +10,7 @@ import Driver.RunH
 import Driver.CliH
 import Driver.DbgH
 import Driver.Edit
+import Driver.CmdProto
 open Lace Lace.Driver
 
 /-- `X02 stackOn minimal instr <machine> inp-hex`
@@ -30,6 +31,31 @@ def handleX02 (toks : List String) : String :=
     | _, _, _, _ => "bad-request"
   | _ => "bad-request"
 
+/-- `L14 <hex line>`: `Command::try_from` on one line. -/
+def handleL14 (toks : List String) : String :=
+  match toks with
+  | [line] =>
+    match parseText line with
+    | some line =>
+      "M " ++ renderOutcome (Cmd.parseLine line) ++
+        (if validLine line then " ;; S " ++ renderOutcome (CmdGrammar.parseLine line) else "")
+    | none => "bad-request"
+  | _ => "bad-request"
+
+/-- `R14 <N | hex argument> <hex stdin>`: every command `read_from` yields until end of input. -/
+def handleR14 (toks : List String) : String :=
+  match toks with
+  | [arg, inp] =>
+    let arg? : Option (Option (List Char)) := if arg == "N" then some none else (parseText arg).map some
+    match arg?, parseBytes inp with
+    | some arg, some inpBytes =>
+      "M " ++ runSession (Cmd.Reader.from arg (inpBytes.map UInt8.ofNat)) ++
+        (match parseText inp with
+         | some b => " ;; S " ++ specSession arg b
+         | none => "")          -- standard input that is not UTF-8: outside the property (I9)
+    | _, _ => "bad-request"
+  | _ => "bad-request"
+
 def handle (line : String) : String :=
   match line.trimAscii.toString.splitOn " " with
   | "X02" :: rest => handleX02 rest
@@ -41,6 +67,8 @@ def handle (line : String) : String :=
   -- direct predicates on the implementation: the only acceptable observation is `holds`
   | "Z06" :: _ => "M holds ;; S holds"
   | "K20" :: rest => Lace.Driver.Edit.handleK20 rest
+  | "L14" :: rest => handleL14 rest
+  | "R14" :: rest => handleR14 rest
   | _ => "bad-request"
 
 partial def loop (h : IO.FS.Stream) (out : IO.FS.Stream) : IO Unit := do
